@@ -78,6 +78,85 @@ fn main() {
         if got != exp { fail(format!("range iteration {lo}..={hi}")); }
         checks += 1;
     } }
+    // std `RangeInclusive::step_by(n).map(f)` (stand-in step_by_map, unit c08_chunk_range_v): yields f(lo), f(lo+n), … while the argument is <= hi,
+    // f is called on exactly those values, in that order; nothing for an inverted range
+    for lo in 0..14u64 { for hi in 0..14u64 { for n in 1..7usize {
+        let mut called: Vec<u64> = vec![];
+        let got: Vec<u64> = (lo..=hi).step_by(n).map(|x| { called.push(x); x * 1000 + 7 }).collect();
+        let cnt = if lo <= hi { (hi - lo) / n as u64 + 1 } else { 0 };
+        let exp_args: Vec<u64> = (0..cnt).map(|k| lo + k * n as u64).collect();
+        let exp: Vec<u64> = exp_args.iter().map(|x| x * 1000 + 7).collect();
+        if got != exp || called != exp_args { fail(format!("step_by/map {lo}..={hi} step {n}")); }
+        checks += 1;
+    } } }
+    // Ord::min / Ord::max / cmp::max on a derived-Ord one-field tuple struct = the field's order
+    #[derive(Copy, Clone, PartialEq, Eq, PartialOrd, Ord, Debug)] struct Nt(u64);
+    for a in [0u64, 1, 2, 9, u64::MAX - 1, u64::MAX] { for b in [0u64, 1, 2, 9, u64::MAX - 1, u64::MAX] {
+        if Nt(a).min(Nt(b)) != Nt(a.min(b)) || Nt(a).max(Nt(b)) != Nt(a.max(b)) || std::cmp::max(Nt(a), Nt(b)) != Nt(a.max(b)) || (Nt(a) < Nt(b)) != (a < b) || (Nt(a) <= Nt(b)) != (a <= b) { fail(format!("derived Ord {a} {b}")); }
+        if std::cmp::max(Some(Nt(a)), None) != Some(Nt(a)) || (Some(Nt(a)) > None::<Nt>) != true || (Some(Nt(a)) > Some(Nt(b))) != (a > b) { fail(format!("Option<derived Ord> {a} {b}")); }
+        checks += 2;
+    } }
+    // indexmap::IndexMap (stand-ins of c10_ingest `seen`, c14_updates cl cache): insertion order, Entry API, split_off, truncate, swap_remove_entry
+    {
+        use indexmap::{IndexMap, map::Entry};
+        let build_im = |ks: &[u8]| { let mut m: IndexMap<u8, i64> = IndexMap::new(); let mut order: Vec<u8> = vec![]; let mut vals = std::collections::BTreeMap::new();
+            for (i, k) in ks.iter().enumerate() { m.insert(*k, i as i64); if !order.contains(k) { order.push(*k); } vals.insert(*k, i as i64); } (m, order, vals) };
+        let mut seqs: Vec<Vec<u8>> = vec![vec![]];
+        for len in 1..=4 { let mut idx = vec![0u8; len]; loop { seqs.push(idx.clone()); let mut j = 0; while j < len { idx[j] += 1; if idx[j] < 4 { break; } idx[j] = 0; j += 1; } if j == len { break; } } }
+        let entries = |m: &IndexMap<u8, i64>| -> Vec<(u8, i64)> { m.iter().map(|(k, v)| (*k, *v)).collect() };
+        for ks in &seqs {
+            let (m, order, vals) = build_im(ks);
+            let model: Vec<(u8, i64)> = order.iter().map(|k| (*k, vals[k])).collect();
+            // IndexMap::insert: new key appended, existing key keeps its position and takes the new value ; len
+            if entries(&m) != model || m.len() != order.len() { fail(format!("indexmap insert order {ks:?}")); }
+            for k in 0..5u8 {
+                if m.contains_key(&k) != order.contains(&k) || m.get(&k).copied() != vals.get(&k).copied() { fail(format!("indexmap get/contains_key {ks:?} {k}")); }
+                // entry(): Occupied iff present
+                let mut a = m.clone();
+                let occupied = matches!(a.entry(k), Entry::Occupied(_));
+                if occupied != order.contains(&k) { fail(format!("indexmap entry kind {ks:?} {k}")); }
+                // Entry::or_insert(v): existing value untouched / v appended at the end
+                let mut a = m.clone(); let r = *a.entry(k).or_insert(99);
+                let mut exp = model.clone(); if !order.contains(&k) { exp.push((k, 99)); }
+                if entries(&a) != exp || r != (if order.contains(&k) { vals[&k] } else { 99 }) { fail(format!("indexmap or_insert {ks:?} {k}")); }
+                // Entry::or_default
+                let mut a = m.clone(); let r = *a.entry(k).or_default();
+                let mut exp = model.clone(); if !order.contains(&k) { exp.push((k, 0)); }
+                if entries(&a) != exp || r != (if order.contains(&k) { vals[&k] } else { 0 }) { fail(format!("indexmap or_default {ks:?} {k}")); }
+                // VacantEntry::insert appends ; OccupiedEntry::insert replaces in place and returns the old value ; OccupiedEntry::get/get_mut
+                let mut a = m.clone();
+                match a.entry(k) {
+                    Entry::Vacant(v) => { let r = *v.insert(77); let mut exp = model.clone(); exp.push((k, 77)); if r != 77 || entries(&a) != exp { fail(format!("indexmap vacant insert {ks:?} {k}")); } }
+                    Entry::Occupied(mut o) => { if *o.get() != vals[&k] || *o.get_mut() != vals[&k] { fail("indexmap occupied get".into()); } let old = o.insert(55);
+                        let exp: Vec<(u8, i64)> = model.iter().map(|(kk, vv)| if *kk == k { (*kk, 55) } else { (*kk, *vv) }).collect();
+                        if old != vals[&k] || entries(&a) != exp { fail(format!("indexmap occupied insert {ks:?} {k}")); } }
+                }
+                // OccupiedEntry::swap_remove_entry: as a MAP the result is map minus the key (order is not promised by the stand-in)
+                let mut a = m.clone();
+                if let Entry::Occupied(o) = a.entry(k) { let (rk, rv) = o.swap_remove_entry();
+                    let mut got: Vec<(u8, i64)> = entries(&a); got.sort(); let mut exp: Vec<(u8, i64)> = model.iter().copied().filter(|(kk, _)| *kk != k).collect(); exp.sort();
+                    if rk != k || rv != vals[&k] || got != exp { fail(format!("indexmap swap_remove_entry {ks:?} {k}")); } }
+                checks += 7;
+            }
+            for at in 0..=order.len() {
+                let mut a = m.clone(); let b = a.split_off(at);
+                if entries(&a) != model[..at] || entries(&b) != model[at..] { fail(format!("indexmap split_off {ks:?} {at}")); }
+                checks += 1;
+            }
+            for n in 0..=order.len() + 1 {
+                let mut a = m.clone(); a.truncate(n);
+                if entries(&a) != model[..n.min(order.len())] { fail(format!("indexmap truncate {ks:?} {n}")); }
+                checks += 1;
+            }
+        }
+    }
+    // std VecDeque (ingest queue stand-in): push_back appends, pop_front removes the oldest, len
+    {
+        let mut q: std::collections::VecDeque<u32> = Default::default(); let mut model: Vec<u32> = vec![];
+        for step in 0..40u32 { if step % 3 == 2 { let r = q.pop_front(); let e = if model.is_empty() { None } else { Some(model.remove(0)) }; if r != e { fail("vecdeque pop_front".into()); } } else { q.push_back(step); model.push(step); }
+            if q.len() != model.len() || q.iter().copied().collect::<Vec<_>>() != model { fail("vecdeque order".into()); } checks += 1; }
+        if q.pop_front().is_none() { fail("vecdeque".into()); } q.clear(); if q.pop_front().is_some() { fail("vecdeque empty pop".into()); }
+    }
     // bytes::Buf on &[u8]: get_uint zero-extends, get_int sign-extends, both consume n bytes; put_int writes the low n bytes big-endian
     let pats: [u8; 6] = [0x00, 0x01, 0x7f, 0x80, 0xfe, 0xff];
     for n in 1..=8usize {
@@ -107,5 +186,5 @@ fn main() {
         if std::panic::catch_unwind(f).is_ok() { println!("DEPCHECK-FAIL {name} did not panic"); std::process::exit(1); }
         checks += 1;
     }
-    println!("DEPCHECK-OK checks={checks} universe=\"all 256 range sets over 0..8 x all 64 (lo,hi) pairs; range iteration 12x12; bytes get/put widths 1..=8 x 36 byte patterns; 4 panic contracts\"");
+    println!("DEPCHECK-OK checks={checks} universe=\"all 256 range sets over 0..8 x all 64 (lo,hi) pairs; range iteration 12x12; step_by/map 14x14 ranges x steps 1..=6; derived Ord on a newtype (6x6 values incl. Option); IndexMap<u8,i64>: every insertion sequence of length <= 4 over 4 keys x entry/or_insert/or_default/insert/swap_remove_entry/split_off/truncate; VecDeque 40-step trace; bytes get/put widths 1..=8 x 36 byte patterns; 4 panic contracts\"");
 }
